@@ -4,7 +4,7 @@ From GoImap.Model Require Import NumSet MatchList Utf7 Wire ServerConn ServerFra
 From GoImap.Proofs Require Import ServerFrameSpec ServerFrameProofs.
 Open Scope N_scope.
 
-Theorem C04_frames_agree : forall cfg st0 cs, forallb wf_cmd cs = true ->
+Theorem C04_frames_agree : forall cfg st0 cs, st0 <> SLogout -> forallb wf_cmd cs = true ->
   let f := run_stream cfg st0 (render cs) in
   rev (fs_starts f) = starts_from 0 cs /\
   out_tags (rev (fs_out f)) = tags_upto cs /\
